@@ -276,13 +276,22 @@ impl Epoch {
                     prime_epoch_offset + delta_tdb_tai - ts.prime_epoch_offset()
                 }
                 TimeScale::UTC => {
-                    // Assume it's TAI
-                    let epoch = Self {
-                        duration: prime_epoch_offset,
-                        time_scale: TimeScale::TAI,
-                    };
                     // TAI = UTC + leap_seconds <=> UTC = TAI - leap_seconds
-                    prime_epoch_offset - epoch.leap_seconds(true).unwrap_or(0.0).seconds()
+                    // The leap second table is keyed on UTC: in TAI, an entry takes effect when its
+                    // leap second starts, i.e. at its timestamp plus the offset in force before it.
+                    let mut delta_at = 0.0;
+                    for leap_second in LatestLeapSeconds::default() {
+                        if leap_second.announced_by_iers {
+                            if prime_epoch_offset
+                                >= (leap_second.timestamp_tai_s + delta_at) * Unit::Second
+                            {
+                                delta_at = leap_second.delta_at;
+                            } else {
+                                break;
+                            }
+                        }
+                    }
+                    prime_epoch_offset - delta_at.seconds()
                 }
                 TimeScale::GPST => prime_epoch_offset - GPST_REF_EPOCH.to_tai_duration(),
                 TimeScale::GST => prime_epoch_offset - GST_REF_EPOCH.to_tai_duration(),
